@@ -3,6 +3,7 @@ CONSTANTS
   Locked = TRUE
   Bodies <- BodiesTwice
   Modes <- AnsiPlain
+  ValueChoices <- DefaultValues
   Seconds <- SecondsH
   TickMs <- Ticks1
   MaxTicks = 1
